@@ -672,7 +672,7 @@ func (g *cg) program() string {
 
 	// routes, grouped into channel forms
 	var paths []string
-	nRoutes := g.n("n-routes", 1, 5)
+	nRoutes := g.n("n-routes", 1, 4)
 	if g.bad(4, "no-routes") {
 		nRoutes = 0
 	}
